@@ -293,8 +293,9 @@ class Gen:
         stop = None if r.random() < 0.3 else start + r.choice([0, 1, 1, 2, 2, 3, 4])
         if r.random() < 0.05:
             start, stop = 0, None
-        self.ops.append({"k": "slice", "t": i, "start": start, "stop": stop})
-        self.pool.append(sh.copy(pending=False))
+        fl = self.flags(sh)      # issued through Slice(...).apply(rel, preferred_engine=...)
+        self.ops.append({"k": "slice", "t": i, "start": start, "stop": stop, **fl})
+        self.pool.append(sh.copy(pending=False, eng=self._after_flags(sh, fl)))
 
     def g_chain(self):
         r = self.rng
@@ -312,6 +313,21 @@ class Gen:
         if r.random() < 0.5:
             i, j = j, i
         self.ops.append({"k": "chain", "l": i, "r": j})
+        self.pool.append(sh.copy(pending=False))
+
+    def g_chain_empty(self):
+        """Chain with a statically empty branch (doomed leaf), in either position."""
+        r = self.rng
+        i = self.pick(lambda s: not s.pending)
+        if i is None:
+            return
+        sh = self.pool[i]
+        cols = sorted(sh.cols)
+        self.ops.append({"k": "leaf", "eng": sh.eng, "cols": cols, "rows": [], "special": "doomed"})
+        self.pool.append(Shadow(cols, sh.eng, nrows=0))
+        j = len(self.pool) - 1
+        l, rr = (j, i) if r.random() < 0.5 else (i, j)
+        self.ops.append({"k": "chain", "l": l, "r": rr})
         self.pool.append(sh.copy(pending=False))
 
     def g_join(self):
@@ -452,7 +468,10 @@ class Gen:
             elif tgt.eng == "sql":
                 base["e"] = ["udf", "itonly", base["e"]]
                 if base.get("pe") not in (None, "sql"):
-                    base.pop("pe")
+                    if r.random() < 0.5:
+                        base.pop("pe")
+                    else:       # preferred engine would support it, but the operation cannot get there
+                        base["bt"], base["tr"] = False, False
                 edit = "unsupported"
         elif kind == "proj" and missing:
             base["cols"] = sorted(set(base["cols"]) | {r.choice(missing)})
@@ -465,7 +484,10 @@ class Gen:
             elif tgt.eng == "sql" and tgt.cols:
                 base["p"] = ["cmp", "gt", ["udf", "itonly", ["ref", sorted(tgt.cols)[0]]], ["lit", 0]]
                 if base.get("pe") not in (None, "sql"):
-                    base.pop("pe")
+                    if r.random() < 0.5:
+                        base.pop("pe")
+                    else:
+                        base["bt"], base["tr"] = False, False
                 edit = "unsupported"
         elif kind == "sort" and missing:
             base["terms"] = base["terms"] + [[["ref", r.choice(missing)], True]]
